@@ -54,6 +54,17 @@ pub struct Sc {
     pub script: Vec<ReadStep>,
     /// Partition used to re-feed the printed output.
     pub refeed: Vec<usize>,
+    /// The consumer clones the stream object after this many writes and carries
+    /// on with the clone (the carry-over state must travel with it).
+    #[serde(default)]
+    pub clone_after: Option<usize>,
+    /// The consumer drains the collected entries (entries_mut) after every
+    /// this-many writes, as a long-running reader would.
+    #[serde(default)]
+    pub drain_every: Option<usize>,
+    /// Start from SummaryStream::default() instead of new().
+    #[serde(default)]
+    pub from_default: bool,
 }
 
 pub struct Rendered {
@@ -301,6 +312,8 @@ pub struct C09;
 /// Wraps the real SummaryStream; checks the per-write invariants.
 struct Mon<'a> {
     stream: SummaryStream,
+    /// entries the consumer has already taken out of the stream
+    drained: Vec<pkgsrc::summary::Summary>,
     sc: &'a Sc,
     rend: &'a Rendered,
     delivered: usize,
@@ -312,6 +325,24 @@ struct Mon<'a> {
 }
 
 impl<'a> Mon<'a> {
+    fn total(&self) -> usize {
+        self.drained.len() + self.stream.entries().len()
+    }
+    fn entry(&self, i: usize) -> &pkgsrc::summary::Summary {
+        if i < self.drained.len() {
+            &self.drained[i]
+        } else {
+            &self.stream.entries()[i - self.drained.len()]
+        }
+    }
+    fn printed(&self) -> String {
+        let mut s = String::new();
+        for e in &self.drained {
+            s.push_str(&format!("{}\n", e));
+        }
+        s.push_str(&self.stream.to_string());
+        s
+    }
     fn terminated(&self, delivered: usize) -> usize {
         self.rend.term_ends.iter().filter(|&&t| t <= delivered).count()
     }
@@ -336,7 +367,7 @@ impl<'a> Mon<'a> {
 
 impl<'a> Write for Mon<'a> {
     fn write(&mut self, buf: &[u8]) -> io::Result<usize> {
-        let before_entries = self.stream.entries().len();
+        let before_entries = self.total();
         let before = self.delivered;
         if buf.is_empty() {
             self.probes.push("write-of-zero");
@@ -361,7 +392,7 @@ impl<'a> Write for Mon<'a> {
                     );
                 }
                 self.delivered += buf.len();
-                let n_entries = self.stream.entries().len();
+                let n_entries = self.total();
                 if n_entries < before_entries {
                     self.flag(
                         "entries-shrank",
@@ -392,7 +423,7 @@ impl<'a> Write for Mon<'a> {
                 }
                 let upto = n_entries.min(self.sc.entries.len());
                 for i in self.checked..upto {
-                    if let Err(e) = compare(&self.stream.entries()[i], &self.sc.entries[i]) {
+                    if let Err(e) = compare(self.entry(i), &self.sc.entries[i]) {
                         self.flag("entry-mismatch", format!("entry {}: {}", i, e));
                     }
                 }
@@ -406,6 +437,22 @@ impl<'a> Write for Mon<'a> {
                                 b, self.delivered
                             ),
                         );
+                    }
+                }
+                // the consumer's own actions between writes
+                let k = self.writes.len();
+                if self.sc.clone_after == Some(k) {
+                    self.probes.push("stream-cloned-mid-delivery");
+                    let c = self.stream.clone();
+                    self.stream = c;
+                }
+                if let Some(d) = self.sc.drain_every {
+                    if d > 0 && k % d == 0 {
+                        let taken = std::mem::take(self.stream.entries_mut());
+                        if !taken.is_empty() {
+                            self.probes.push("entries-drained-between-writes");
+                        }
+                        self.drained.extend(taken);
                     }
                 }
                 Ok(n)
@@ -447,7 +494,7 @@ impl<'a> Write for Mon<'a> {
                                     format!("malformed entry reported as {:?}, not InvalidData", e.kind()),
                                 );
                             }
-                            let n_entries = self.stream.entries().len();
+                            let n_entries = self.total();
                             if n_entries != b {
                                 self.flag(
                                     "entries-at-failure-wrong",
@@ -458,7 +505,7 @@ impl<'a> Write for Mon<'a> {
                                 );
                             } else {
                                 for i in 0..b {
-                                    if let Err(m) = compare(&self.stream.entries()[i], &self.sc.entries[i]) {
+                                    if let Err(m) = compare(self.entry(i), &self.sc.entries[i]) {
                                         self.flag("entries-at-failure-wrong", format!("entry {}: {}", i, m));
                                     }
                                 }
@@ -539,6 +586,9 @@ impl Property for C09 {
                 chunks: Vec::new(),
                 script: Vec::new(),
                 refeed: Vec::new(),
+                clone_after: None,
+                drain_every: if rng.chance(1, 2) { Some(1) } else { None },
+                from_default: false,
             };
             let len = render(&sc).bytes.len();
             let lens: Vec<usize> = match rng.below(4) {
@@ -574,6 +624,9 @@ impl Property for C09 {
             chunks: Vec::new(),
             script: Vec::new(),
             refeed: Vec::new(),
+            clone_after: if rng.chance(1, 5) { Some(rng.urange(1, 6)) } else { None },
+            drain_every: if rng.chance(1, 4) { Some(rng.urange(1, 4)) } else { None },
+            from_default: rng.chance(1, 4),
         };
         let rend = render(&sc);
         match driver {
@@ -616,7 +669,8 @@ impl Property for C09 {
         let rend = render(sc);
         let bytes = &rend.bytes;
         let mut mon = Mon {
-            stream: SummaryStream::new(),
+            stream: if sc.from_default { SummaryStream::default() } else { SummaryStream::new() },
+            drained: Vec::new(),
             sc,
             rend: &rend,
             delivered: 0,
@@ -736,16 +790,16 @@ impl Property for C09 {
                     mon.delivered,
                     bytes.len()
                 );
-                let got = mon.stream.entries();
+                let got_len = mon.total();
                 ensure!(
-                    got.len() == sc.entries.len(),
+                    got_len == sc.entries.len(),
                     "entry-count",
                     "stream has {} entries, collected {}",
                     sc.entries.len(),
-                    got.len()
+                    got_len
                 );
-                for (i, (g, m)) in got.iter().zip(sc.entries.iter()).enumerate() {
-                    if let Err(e) = compare(g, m) {
+                for (i, m) in sc.entries.iter().enumerate() {
+                    if let Err(e) = compare(mon.entry(i), m) {
                         fail!("entry-mismatch", "entry {}: {}", i, e);
                     }
                 }
@@ -754,12 +808,12 @@ impl Property for C09 {
                     Ok(s) => s,
                     Err(e) => fail!("single-write-failed", "{}", e),
                 };
-                let printed = mon.stream.to_string();
+                let printed = mon.printed();
                 ensure!(
-                    one.entries().len() == got.len() && one.to_string() == printed,
+                    one.entries().len() == got_len && one.to_string() == printed,
                     "differs-from-single-write",
                     "chunked delivery collected {} entries, a single write {}",
-                    got.len(),
+                    got_len,
                     one.entries().len()
                 );
                 // printing the collection reproduces the stream
@@ -774,12 +828,12 @@ impl Property for C09 {
                 match feed_direct(printed.as_bytes(), &sc.refeed) {
                     Ok(s2) => {
                         ensure!(
-                            s2.entries().len() == got.len() && s2.to_string() == printed,
+                            s2.entries().len() == got_len && s2.to_string() == printed,
                             "refeed-differs",
                             "re-feeding the printed output in {} chunks gave {} entries (expected {})",
                             sc.refeed.len() + 1,
                             s2.entries().len(),
-                            got.len()
+                            got_len
                         );
                     }
                     Err(e) => fail!("write-failed-on-wellformed", "re-feed of printed output: {}", e),
@@ -860,6 +914,15 @@ impl Property for C09 {
         }
         if !sc.refeed.is_empty() {
             push!(Sc { refeed: vec![], ..sc.clone() });
+        }
+        if sc.clone_after.is_some() {
+            push!(Sc { clone_after: None, ..sc.clone() });
+        }
+        if sc.drain_every.is_some() {
+            push!(Sc { drain_every: None, ..sc.clone() });
+        }
+        if sc.from_default {
+            push!(Sc { from_default: false, ..sc.clone() });
         }
         if sc.driver == Driver::Copy {
             // same partition through direct writes
@@ -1050,7 +1113,8 @@ impl Property for C09 {
          renders the stream and draws a partition into write calls (single/two cuts, fixed sizes incl. 1, random, \
          biased into multi-byte characters / the blank-line separator / after '=', 8 KiB boundaries, zero-length \
          writes), delivered directly or through std::io::copy from a scripted reader with EINTR, hard error or \
-         early EOF. Non-trivial = more than one write call or an upstream fault; distinct = distinct schedule \
+         early EOF; in some runs the consumer clones the stream object mid-delivery, drains entries_mut() between writes, or \
+         starts from Default. Non-trivial = more than one write call or an upstream fault; distinct = distinct schedule \
          signatures (hash of the sequence of write lengths/outcomes and reader events). For streams of at most \
          700 bytes a subset of runs sweeps every single cut position and every fixed chunk size 1..64, and a smaller \
          subset sweeps every PAIR of cuts of a shortened copy of the stream (sweep_evaluations; each complete for \
@@ -1092,6 +1156,8 @@ impl Property for C09 {
             "bad-invalid-utf8",
             "stream-over-64KiB",
             "single-write-over-64KiB",
+            "stream-cloned-mid-delivery",
+            "entries-drained-between-writes",
         ]
     }
 }
